@@ -596,6 +596,12 @@ def c08_cases(base, rng, budget=None):
                     x.length = 2
                     x.has_length = True
                 edit("multi-byte-array", ["MultiByteArray"], "%s %s[2]" % (t.name, t.prim), on(arr))
+            if t.length == 1 and t.prim not in ("char", "int8", "uint8") and not public:
+                def arr0(x):
+                    x.length = 0
+                    x.has_length = True
+                # length 0 is an array too
+                edit("multi-byte-array-length-0", ["MultiByteArray"], "%s %s[0]" % (t.name, t.prim), on(arr0))
             if t.length != 1 and t.prim in ("char", "int8", "uint8"):
                 edit("array-length-not-a-number", ["BadNumber"], "%s length=2^64" % t.name, on(lambda x: setattr(x, "length", U64 + 1)))
         if t.kind == "type" and t.name.lower() not in referenced and public:
@@ -694,6 +700,13 @@ def c08_cases(base, rng, budget=None):
             m.length = 1
             m.has_length = False
         edit("data-header-varData-length-1", ["BadLevelHeader"], "%s.varData length=1" % d, vd1)
+
+        def vdwide(c, d=d):
+            hh = c.find(d)
+            m = [m for m in hh.members if m.name == "varData"][0]
+            m.prim = "uint16"
+        # a <data> payload is an array (length 0) and must have a single-byte element type
+        edit("data-header-varData-multi-byte", ["MultiByteArray", "BadLevelHeader"], "%s.varData primitiveType=uint16" % d, vdwide)
 
         def vdrop(c, d=d):
             hh = c.find(d)
